@@ -1693,6 +1693,8 @@ class ThroughputCalculator:
                 start_time=first_sample.absolute_time - first_sample.time_period,
             )
         current = self.task_stats[task]
+        # samples carried over from the previous invocation are already contained in current_samples
+        current.unprocessed = []
         count = current.total_count
         last_sample = None
         for sample in current_samples:
